@@ -55,6 +55,8 @@ def enumerate_cases(tier, scope):
         {'rets': {'a': [None, 5]}, 'preds': {'p': [True, True, False], 'q': [False], 'r': [True]}},
         {'rets': {'b': [0]}, 'preds': {'p': [True, False], 'q': [False, True], 'r': [False]}},
         {'rets': {'a': [{'__tc__': {}}]}, 'preds': {'p': [False], 'q': [True, True], 'r': [True]}},
+        {'rets': {'a': [7], 'b': [None, 8]}, 'tocontext': {'a': [{'ka': ['done', 1]}], 'b': [{'kb': ['done', 2]}, {'kb2': ['done', 3]}]}, 'preds': {'p': [True, False], 'q': [True], 'r': [True]}},
+        {'rets': {}, 'tocontext': {'a': [{'ka': ['done', 1]}, {'ka': ['done', 2]}], 'b': [{'kb': ['done', 2]}]}, 'preds': {'p': [True, True, False], 'q': [True, False], 'r': [True]}},
     ]
     if scope == 'medium':
         instrs = instrs[:: max(1, len(instrs) // 1500)]
@@ -103,7 +105,12 @@ def _cases(draw, tier):
         if draw(st.integers(0, 3)) > 0:
             seq = [True] + seq  # bias: loops and branches get entered
         preds[name] = seq
-    return {'outline': outline, 'behaviour': {'rets': rets, 'preds': preds}}
+    behaviour = {'rets': rets, 'preds': preds}
+    if draw(st.integers(0, 2)) == 0:
+        # steps that also register (already completed) awaitables through to_context(): the denoted program is the same,
+        # in particular a value returned by such a step still is the result
+        behaviour['tocontext'] = {name: [{'k' + name: ['done', i]} for i in range(draw(st.integers(1, 3)))] for name in draw(st.lists(st.sampled_from(STEP_NAMES), min_size=1, max_size=3, unique=True))}
+    return {'outline': outline, 'behaviour': behaviour}
 
 
 def strategy(tier):
